@@ -119,6 +119,14 @@ CHECKS = {
             "exit 0, or with a non-zero status, an Error line and no generated file. Held on the inputs tried.",
             "one process per input; 25 s watchdog (retry at 75 s) and 3 GB RSS cap decide hang / out-of-memory",
             "DESIGN.md section 3, C09"),
+    "C08": ("exploration",
+            "single rule-breaking / boundary-valid edits of valid schemas run through the instrumented sbeppc; exit status, "
+            "diagnostic location and output directory compared with the verdict the edit implies",
+            "Each listed rule is broken by exactly one edit at every applicable position class (top level, nested group, "
+            "public and inline composite, ref target, header) and the matching boundary-valid edit is applied too; accept "
+            "<=> exit 0 (not a regex over the output), rejects must be located and leave no file.",
+            "verdicts follow from the edit class; position sampling capped per rule and schema",
+            "DESIGN.md section 3, C08"),
 }
 
 
